@@ -41,6 +41,8 @@ int ad_set_field_size(void *ses, uint32_t m, int sid);       /* codec 2: OF_RS_C
 /* libc rand() seam: the stream the library sees from now on */
 void ad_set_rand_stream(uint64_t seed);
 uint64_t ad_rand_calls(void);
+void ad_set_rand_mode(int mode);
+uint64_t ad_rand_degenerate_calls(void);
 
 /* white-box shim (compiled with the library's own headers) */
 typedef void (*shim_entry_fn)(void *ctx, uint32_t row, uint32_t esi);
